@@ -5,6 +5,8 @@ import (
 	"encoding/hex"
 
 	"github.com/libsv/go-bk/base58"
+	"github.com/libsv/go-bk/bec"
+	"github.com/libsv/go-bk/crypto"
 )
 
 func sha256dRef(b []byte) []byte {
@@ -64,6 +66,25 @@ func VH_C15_RoundTrip() {
 			khh, _ := hex.DecodeString(ak.PublicKeyHash)
 			vassert(vbytesEq(khh, kh), "key: address hash equals script hash")
 		}
+	}
+	// from an elliptic-curve key object (ideal key model: the compressed encoding is a function of the key)
+	kb := vnondetBytes("eckey", 32, 32)
+	vassume(kb[0] >= 1 && kb[0] <= 0x7f)
+	_, pub := bec.PrivKeyFromBytes(bec.S256(), kb)
+	eh := crypto.Hash160(pub.SerialiseCompressed())
+	ae, err := NewAddressFromPublicKey(pub, mainnet)
+	vassert(err == nil, "address from EC key")
+	if err == nil {
+		ad, err := NewAddressFromString(ae.AddressString)
+		vassert(err == nil, "EC key: derived address decodes")
+		if err == nil {
+			dh, _ := hex.DecodeString(ad.PublicKeyHash)
+			vassert(vbytesEq(dh, eh), "EC key: derived address decodes back to the key hash")
+		}
+		se, err := NewP2PKHFromAddress(ae.AddressString)
+		vassert(err == nil && se != nil && vbytesEq(*se, refP2PKH(eh)), "EC key: script from address is the canonical script of the key hash")
+		sk2, err := NewP2PKHFromPubKeyEC(pub)
+		vassert(err == nil && sk2 != nil && vbytesEq(*sk2, refP2PKH(eh)), "EC key: script from key is the canonical script of the key hash")
 	}
 	_, err = NewP2PKHFromPubKeyBytes(vnondetBytes("badkey", 32, 32))
 	vassert(err != nil, "32-byte key rejected")
@@ -212,4 +233,26 @@ func VH_C15_Edits() {
 	} else {
 		vreach("edit-invalid")
 	}
+}
+
+// C15-D: every version byte on a payload with a correct checksum: accepted (by validation, by address
+// decoding and by script construction) exactly for the two supported P2PKH versions. The version is
+// concretised so that the address text is concrete and the library's own Base58 arithmetic runs.
+func VH_C15_Versions() {
+	ver := byte(vconcU64(uint64(vnondetU8("version"))))
+	h := []byte{0x11, 0x22, 0x33, 0x44, 0x55, 0x66, 0x77, 0x88, 0x99, 0xaa, 0xbb, 0xcc, 0xdd, 0xee, 0xff, 0x01, 0x02, 0x03, 0x04, 0x05}
+	if vnondetBool("zero-hash") {
+		h = make([]byte, 20)
+	}
+	d := append([]byte{ver}, h...)
+	d = append(d, sha256dRef(d)[:4]...)
+	s := base58.Encode(d)
+	want := ver == 0x00 || ver == 0x6f
+	ok, _ := ValidateAddress(s)
+	vassert(ok == want, "ValidateAddress accepts a checksummed payload exactly for the supported version bytes")
+	_, err := NewAddressFromString(s)
+	vassert((err == nil) == want, "NewAddressFromString accepts a checksummed payload exactly for the supported version bytes")
+	_, err2 := NewP2PKHFromAddress(s)
+	vassert((err2 == nil) == want, "NewP2PKHFromAddress accepts a checksummed payload exactly for the supported version bytes")
+	vreach("versions-done")
 }
